@@ -36,7 +36,7 @@ ASSUMPTIONS = [
 COMPONENTS = {"real": ["dali.device.sequences.*", "dali.device.helpers.check_bad_rsp / DeviceInstanceTypeMapper.autodiscover",
                        "dali.device.general command classes, responses, InstanceEventFilter"],
               "stub": ["bus and control devices (sim/busim.py)", "driver"]}
-PROBES = ["earlier-calls-in-same-process", "filter-24-bit", "filter-16-bit", "filter-8-bit", "filter-plain-int", "stale-dtr", "resolution-not-multiple-of-8",
+PROBES = ["mapper-preloaded-with-stale-entries", "earlier-calls-in-same-process", "filter-24-bit", "filter-16-bit", "filter-8-bit", "filter-plain-int", "stale-dtr", "resolution-not-multiple-of-8",
           "resolution-over-24", "sensor-changed-between-reads", "scheme-invalid", "scan-collision", "scan-reset-state",
           "scan-disabled-instance", "scan-fault", "answer-dropped", "answer-garbled", "scan-64-devices"]
 
@@ -125,6 +125,15 @@ def gen_plan(seed, tier="quick"):
         if devs and r.random() < 0.15:
             devs.append({"short": devs[0]["short"], "status": 0, "instances": [[1, True]]})
         plan["devices"] = devs
+        if devs and r.random() < 0.25:
+            # the mapper is long-lived: it was loaded from a saved configuration or has scanned before,
+            # and some of what it holds is out of date (a product replaced, an instance re-typed)
+            pre = []
+            for dd in r.sample(devs, min(len(devs), r.randrange(1, 4))):
+                for n_ in range(min(len(dd["instances"]), r.randrange(1, 4))):
+                    pre.append([dd["short"], n_, r.choice([1, 2, 3, 4, 6, 0, 31])])
+            pre.append([r.randrange(64), r.randrange(32), r.choice([1, 3, 4])])
+            plan["preload"] = pre
         plan["range"] = r.choice(["default", "default", "int", "tuple", "list", "iter", "gen", "range"])
     return plan
 
@@ -288,6 +297,10 @@ def run_plan(plan):
                                      name="D%d" % i))
         bus = busim.Bus(devs)
         m = DeviceInstanceTypeMapper()
+        for a_, i_, t_ in plan.get("preload") or []:
+            m.add_type(short_address=a_, instance_number=i_, instance_type=t_)
+        if plan.get("preload"):
+            probes["mapper-preloaded-with-stale-entries"] = 1
         rng_kind = plan["range"]
         if rng_kind == "default":
             gen, scanned = m.autodiscover(), set(range(64))
@@ -349,6 +362,11 @@ def run_plan(plan):
             V("sequence-does-not-terminate", "autodiscover")
         else:
             got = dict(m.mapping)
+            if plan.get("preload"):
+                # what the scan had no way (or no reason) to refresh stays as it was loaded: judged are the
+                # enabled instances of healthy responding devices inside the scanned range
+                got = {k: t for k, t in got.items() if k in expect or
+                       [k[0], k[1], t] not in [list(p_) for p_ in plan["preload"]]}
             for k, t in got.items():
                 if k not in expect or expect[k] != t:
                     if k[0] in touched and k in expect and expect[k] == t:
